@@ -8,9 +8,21 @@ From RU Require Import Base.Prelude Model.HostT Model.UrlRecord Model.Parser Mod
   Proofs.ListN Proofs.C06_Suffix Proofs.C06_Host Proofs.C02_Reach Proofs.C02_AuthMain Proofs.C04_ParseTotal
   Proofs.C03_ReachParts Proofs.C03_ReachHost
   Proofs.C05_Enc Proofs.C05_Parser Proofs.C05_History Proofs.C05_Comp Proofs.C05_CompSteps Proofs.C05_CompHist
-  Proofs.C05_ParseAll Proofs.C05_CompSteps2 Proofs.C05_CompReach Proofs.C05_BaseOk Proofs.C05_CompSteps3.
+  Proofs.C05_ParseAll Proofs.C05_CompSteps2 Proofs.C05_CompReach Proofs.C05_BaseOk Proofs.C05_CompSteps3 Proofs.C03_WF Proofs.C05_Alphabet.
 Open Scope N_scope.
 Open Scope list_scope.
+
+Lemma In_firstn_sub (x : N) n : forall l, In x (firstn n l) -> In x l.
+Proof.
+  induction n as [|n IH]; intros l H; [destruct H|]. destruct l as [|c r]; [destruct H|].
+  destruct H as [H|H]; [left; exact H | right; exact (IH r H)].
+Qed.
+
+Lemma In_nfirstn_skipn_sub (x : N) n m l : In x (firstn n (skipn m l)) -> In x l.
+Proof.
+  intros H. apply In_firstn_sub in H. revert l H. induction m as [|m IH]; intros l H; [exact H|].
+  destruct l as [|c r]; [destruct H|]. right. apply IH. exact H.
+Qed.
 
 Definition fx_hd (h : host) : list N :=
   match h with HDomain d => d | HIpv4 _ => B "1.2.3.4" | HIpv6 _ => B "[::1]" end.
@@ -70,4 +82,39 @@ Proof.
       by (eapply (CR3_join true ex_hp ex_hp fx_hd None b); [exact R2 | vm_compute; reflexivity | exact E3])
   end.
   exists u3. split; [exact R3|]. vm_compute in E3. injection E3 as <-. vm_compute. reflexivity.
+Qed.
+
+(* ---------- the hypotheses of C05_alphabet_reach are met ---------- *)
+Lemma fx_host_ok : HostOK ex_hp ex_hp fx_hd.
+Proof.
+  assert (forall s h, ex_hp s = Ok h -> Forall ok_byte (fx_hd h)) as G.
+  { intros s h E. unfold ex_hp in E. destruct s as [|c r]; [inversion E; constructor|].
+    destruct (forallb ex_hostc (c :: r)) eqn:F; inversion E; subst. cbn [fx_hd].
+    rewrite forallb_forall in F. apply Forall_forall. intros x Hx. specialize (F x Hx).
+    unfold ex_hostc, is_alnum, is_alpha, is_lower, is_upper, is_digit in F. unfold ok_byte. lia. }
+  intros h [->|[[s Hs]|[s Hs]]]; [constructor | exact (G s h Hs) | exact (G s h Hs)].
+Qed.
+
+Lemma fx_ip_okv : IpOKv fx_hd.
+Proof.
+  intros h Hv. destruct h as [d|a|p]; [destruct Hv | |]; cbn [fx_hd]; vm_compute; repeat constructor; discriminate.
+Qed.
+
+(* the record of fin_example: host text "1.2.3.4" has no space, so its serialization splits as alphabet_ok says *)
+Definition fin_alphabet_stmt : Prop :=
+  HostOK ex_hp ex_hp fx_hd /\ IpOKv fx_hd
+  /\ exists u, CReach3 true ex_hp ex_hp fx_hd u /\ ser u = B "http://1.2.3.4:81/w%20v"
+       /\ (has_host u = true -> ~ In 32 (piece u (host_start u) (host_end u))) /\ alphabet_ok u.
+
+Lemma fin_alphabet : fin_alphabet_stmt.
+Proof.
+  split; [exact fx_host_ok|]. split; [exact fx_ip_okv|].
+  destruct fin_example as (_ & _ & u & R & E). exists u. split; [exact R|]. split; [exact E|].
+  assert (has_host u = true -> ~ In 32 (piece u (host_start u) (host_end u))) as Hh.
+  { intros _ Hin. unfold piece in Hin.
+    assert (In 32 (ser u)) as Hs.
+    { unfold nfirstn, nskipn in Hin. apply (In_nfirstn_skipn_sub _ _ _ _ Hin). }
+    rewrite E in Hs. vm_compute in Hs. intuition discriminate. }
+  split; [exact Hh|].
+  exact (creach3_alphabet true ex_hp ex_hp fx_hd fx_host_wf fx_host_ok fx_ip_disp fx_ip_okv u R Hh).
 Qed.
